@@ -322,7 +322,9 @@ def trace_phase(work, seed, quick, fut_rand, fut_samp):
             expect[cid] = (clauses, set(ev["base"]))
             cal.append({"id": cid, "L": c["L"], "E": c["E"]})
     if len(cal) < 8:
-        raise T.MachineryError("calibration: too few judged events to corrupt (%d)" % len(cal))
+        # nothing clean enough to corrupt: a machinery failure unless the run already has violations to show
+        res["cal_error"] = "calibration: too few accepted events to corrupt (%d)" % len(cal)
+        return res
     cv, st = validate_events("Trace_Seidel", cal, os.path.join(work, "cal"), 10 if quick else 16)
     res["runs"].append(("Trace_Seidel", st, len(cal), 0))
     missed = []
@@ -401,6 +403,8 @@ def main(ctx):
     for sm in res["samples"]:
         ctx.sample(sm)
     ctx.extra.update(res["extra"])
+    if res.get("cal_error") and not ctx.violations:
+        raise T.MachineryError(res["cal_error"])
     ctx.assumptions += [
         "sign convention fixed once from the library's documentation (Smith, Modern Optical Engineering 6.3, cited by "
         "the module docstring; Aberrations._sum_seidels): transverse term = classical (Welford) contribution / "
